@@ -1,6 +1,18 @@
 HOOK_COMMITS = ["4e6fe67", "2b7356b"]
 NOT_YET = {}
 META = {
+    "C01": {
+        "text": "Skeleton theorems (regenerated effect order of AssetMap::{get,insert,contains_key} of both maps, load_entry, add_asset, get_cached_entry_inner, _get_or_insert, add_any: each map op is one lock scope, insert is entry().or_insert() under one write lock) reduce every interleaving of any number of threads to a sequence of atomic get/insert/contains steps; over ALL such sequences on the abstract map (to which the sharded map refines for every seed and shard count): presence and the stored cell never change once set, all handles reported for a key are equal, the first publish wins and every racer gets the winner, every reported handle is still stored at the end of the phase; phases between removals.",
+        "design_ref": "DESIGN.md §6 C01",
+        "note": "Partial: Box address stability and soundness of the lifetime extension are assumed (addr is a field of the model cell); lock implementations assumed. Tie: Gen/Skel.lean regenerated each run (lock-scope or or_insert changes break the rfl equalities) + free-running racing threads with forced simultaneous misses and unrelated growth + sequential handle-identity correspondence.",
+        "technique": "Lean 4 proof over all op sequences + skeleton extraction + differential/stress correspondence",
+    },
+    "C02": {
+        "text": "Refinement theorems: the sharded map (any hasher/seed, any shard count, shard index expressions regenerated from get_shard/get_shard_mut) and the flat map both return, on EVERY operation sequence, what the abstract map Key -> Option Cell returns; hence the front-ends agree. One-line laws of the abstract map (independence of other keys, insert never overwrites, remove/take exact, clear empties) and their lift to the cache front-end model: hits change nothing, get_or_insert keeps/adds exactly, lookups are read-only, every evaluation of every loader program only adds entries (eval_mono, by induction over fuel and all Prog constructors), a failed load / load_owned adds nothing of its own, a successful load caches.",
+        "design_ref": "DESIGN.md §6 C02",
+        "note": "Trusted: Lean kernel; amx (shard index/count expressions, entry/record conditions); eval as transcription of anycache.rs. HashMap modelled as keep-first association list. Tie: regenerated Gen/Tables.lean + `cache` engine diffed op-by-op against the model on 4 front-ends x 3 constructors, also with 3 CPUs (16 vs 64 shards), + snapshot oracle.",
+        "technique": "Lean 4 refinement proof (sharded/flat -> abstract map; eval monotonicity) + differential correspondence",
+    },
     "C03": {
         "text": "Theorems over the regenerated ErrorKind::or table and load_from_source loop: closed table, class precedence conv > io > not-found > no-default as rank(or a b) = max, or never invents an error, first readable+decodable extension wins for every extension list and every status of the others, the value is decode(stored bytes, that extension), default_value is handed the fold of all errors (class = highest, one of the actual errors), empty list hands NoDefaultValue; at cache level: a failed Compound::load is Error{own id, reason}, and a failed load of any loader without nested loads (every plain Asset, proved for load_from_source) leaves the cache exactly unchanged.",
         "design_ref": "DESIGN.md §6 C03",
